@@ -235,6 +235,19 @@ def run_case(case):
         # first pass: a fresh object per fit; second pass: ONE object re-fitted through the tau list (refit history)
         cop = Bivariate(copula_type=fam, random_state=5) if it < len(taus) else reused
         cop.fit(X)
+        # a REFUSED re-fit (table with a value outside [0,1], quite different dependence) in between: whatever the model
+        # reports as its tau afterwards must still be the dependence of what it samples
+        Xbad = np.column_stack([X[:, 0], X[::-1, 1]])
+        Xbad[7, it % 2] = 1.2
+        r.tr()
+        try:
+            cop.fit(Xbad)
+            r.violation(f'{sig}:fitted:invalid-table-accepted', f'{fam}: fit accepted a table with the value 1.2', case=case)
+        except ValueError:
+            r.hit('refused-refit-in-between')
+        except Exception as e:
+            r.violation(f'{sig}:fitted:refit-raises:{type(e).__name__}', f'{fam}: fit of an out-of-range table raised '
+                        f'{type(e).__name__}: {e}', case=case)
         k = 32
         m = A.midpoints(k)
         Vg, Cg = np.meshgrid(m, m, indexing='ij')
